@@ -43,52 +43,59 @@ def run(prog: Program, ctx: Ctx) -> None:  # noqa: PLR0912,PLR0915
     ctx.rule("R2", "expand_wildcards: an existing member is overwritten exactly when the wildcard import sits on a later line (missing line = 0); "
                    "the alias is added iff it is not a self-alias and (the name is new or overwrite)")
     xw = prog.function(f"{L}.expand_wildcards")
-    it = Interp(prog)
-    ow = [s for s in walk_no_nested(xw.node) if isinstance(s, ast.Assign) and unparse(s.targets[0]) == "overwrite" and not isinstance(s.value, ast.Constant)]
-    if len(ow) != 1:
-        raise AnalysisError("C05-R2: `overwrite` computation not found in expand_wildcards")
-    names = sorted({n.id for n in ast.walk(ow[0].value) if isinstance(n, ast.Name)})
-    if len(names) != 2:
-        raise AnalysisError(f"C05-R2: overwrite depends on {names}, expected the alias line and the old line")
-    # which is the new (alias) line: the loop variable of the `expanded` loop
-    loop = next((n for n in walk_no_nested(xw.node) if isinstance(n, ast.For) and unparse(n.iter) == "expanded"), None)
-    if loop is None or not isinstance(loop.target, ast.Tuple):
-        raise AnalysisError("C05-R2: loop over the expanded members not found")
-    loop_vars = [unparse(e) for e in loop.target.elts]
-    new_line = next((n for n in names if n in loop_vars), None)
-    old_line = next((n for n in names if n != new_line), None)
-    for a, o in itertools.product((1, 2, 3), (None, 1, 2, 3)):
-        env = Env(xw.module)
-        env.set(new_line, a)
-        env.set(old_line, o)
+    from pathlib import PurePosixPath as _PP
+
+    from sa.absint import Native, Obj
+
+    itw = Interp(prog, max_depth=60, max_steps=3_000_000)
+    MD = "_griffe.models"
+
+    def new(cls: str, *a: object, **k: object) -> Obj:
+        return itw._construct(prog.cls(f"{MD}.{cls}"), list(a), dict(k))
+
+    def setm(o: Obj, n: str, v: Obj) -> None:
+        itw.call(prog.lookup_method(o.cls, "set_member")[0], o, n, v)
+
+    n_rows = 0
+    for old_kind, old_line, star_line in itertools.product(("none", "attribute", "alias", "alias back to the importing module"), (None, 2, 4), (1, 3, 5)):
+        if old_kind == "none" and old_line is not None:
+            continue
+        coll = itw._construct(prog.cls("_griffe.collections.ModulesCollection"), [], {})
+        pkg = new("Module", "pkg", filepath=_PP("/s/pkg/__init__.py"))
+        setm(coll, "pkg", pkg)
+        a, b = new("Module", "a", filepath=_PP("/s/pkg/a.py")), new("Module", "b", filepath=_PP("/s/pkg/b.py"))
+        setm(pkg, "a", a)
+        setm(pkg, "b", b)
+        for nm, ln in (("x", 1), ("y", 2), ("_p", 3)):
+            setm(a, nm, new("Attribute", nm, lineno=ln, endlineno=ln))
+        if old_kind == "alias back to the importing module":
+            setm(a, "z", new("Alias", "z", "pkg.b.z", lineno=4, endlineno=4))  # `from pkg.b import z` in a: star-importing it into b would alias b.z to itself
+            setm(b, "z", new("Attribute", "z", lineno=old_line, endlineno=old_line))
+        elif old_kind == "attribute":
+            setm(b, "x", new("Attribute", "x", lineno=old_line, endlineno=old_line))
+        elif old_kind == "alias":
+            setm(b, "x", new("Alias", "x", "other.x", lineno=old_line, endlineno=old_line))
+        setm(b, "pkg/a/*", new("Alias", "pkg/a/*", "pkg.a", lineno=star_line, endlineno=star_line))
+        loader = Obj(prog.cls(L), {"modules_collection": coll, "extensions": Obj(None, {"call": Native(lambda *_a, **_k: None)})}, label="loader")
+        itw.steps = 0
         try:
-            got = it.truth(it.eval(ow[0].value, env))
+            itw.call(xw, loader, pkg)
+            got = {k_: (v_.cls.name, v_.attrs.get("target_path"), v_.attrs.get("alias_lineno") if v_.cls.name == "Alias" else v_.attrs.get("lineno")) for k_, v_ in b.attrs["members"].items()}
         except Raised as r:
-            got = f"raises {r.exc}"
-        want = a > (o or 0)
-        ctx.ob("R2", f"overwrite|new={a}|old={o}", got == want, f"wildcard on line {a}, existing member on line {o}: overwrite={got}, expected {want}", where(xw, ow[0]))
-    # source of old line: alias_lineno for aliases, lineno otherwise
-    ol = [s for s in walk_no_nested(xw.node) if isinstance(s, ast.Assign) and unparse(s.targets[0]) == old_line]
-    ok = len(ol) == 1 and isinstance(ol[0].value, ast.IfExp) and unparse(ol[0].value.body).endswith(".alias_lineno") and unparse(ol[0].value.test).endswith(".is_alias") \
-        and unparse(ol[0].value.orelse).endswith(".lineno")
-    ctx.ob("R2", key(xw, "old-line-source"), ok, "the existing member's line is its import line for aliases and its definition line otherwise", where(xw, ol[0] if ol else xw.node))
-    # the add condition
-    conds = [n for n in ast.walk(loop) if isinstance(n, ast.If) and any(isinstance(c, ast.Call) and dotted(c.func) == "Alias" for b in n.body for c in ast.walk(b))
-             and {x.id for x in ast.walk(n.test) if isinstance(x, ast.Name)} <= {"self_alias", "already_present", "overwrite"}]
-    if len(conds) != 1:
-        raise AnalysisError("C05-R2: add-condition of expand_wildcards not found")
-    for sa, ap, ov in itertools.product((False, True), repeat=3):
-        env = Env(xw.module)
-        env.set("self_alias", sa)
-        env.set("already_present", ap)
-        env.set("overwrite", ov)
-        got = it.truth(it.eval(conds[0].test, env))
-        want = (not sa) and ((not ap) or ov)
-        ctx.ob("R2", f"add|self_alias={sa}|present={ap}|overwrite={ov}", got == want, f"add alias = {got}, expected {want}", where(xw, conds[0]))
-    # wildcard line numbers flow from the wildcard alias
-    ret = [n for n in ast.walk(ew.node) if isinstance(n, ast.Tuple) and len(n.elts) == 3]
-    ok = bool(ret) and unparse(ret[0].elts[1]).endswith(".alias_lineno") and unparse(ret[0].elts[2]).endswith(".alias_endlineno")
-    ctx.ob("R2", key(ew, "line-of-wildcard"), ok, "each expanded member carries the line span of the wildcard import statement", where(ew))
+            got = {"<raises>": r.exc}
+        star_wins = star_line > (old_line or 0)
+        want = {"y": ("Alias", "pkg.a.y", star_line)}
+        if old_kind == "alias back to the importing module":
+            want["x"] = ("Alias", "pkg.a.x", star_line)
+            want["z"] = ("Attribute", None, old_line)  # never replaced by an alias to itself
+        elif old_kind == "none" or star_wins:
+            want["x"] = ("Alias", "pkg.a.x", star_line)
+        else:
+            want["x"] = ("Attribute", None, old_line) if old_kind == "attribute" else ("Alias", "other.x", old_line)
+        n_rows += 1
+        ctx.ob("R2", f"wildcard|existing={old_kind}@{old_line}|star@{star_line}", got == want,
+               f"`from pkg.a import *` on line {star_line} of pkg.b, existing member: {old_kind} on line {old_line}: members of pkg.b {got}; at run time {want}", where(xw))
+    ctx.expect_min("R2", n_rows, 25)
 
     # ------------------------------------------------------------------ R3
     ctx.rule("R3", "every public attribute / property / method of Object, Module, Class, Function, Attribute exists on Alias; each proxy reads the "
@@ -157,34 +164,46 @@ def run(prog: Program, ctx: Ctx) -> None:  # noqa: PLR0912,PLR0915
     # ------------------------------------------------------------------ R4
     ctx.rule("R4", "__all__ collection: the extraction table handles list/tuple/set/+/names/attributes/starred/constants; `__all__ += ...` extends "
                    "exports exactly for the name __all__ in a module with the + operator; assignment to __all__ sets exports")
-    ex = prog.module("_griffe.agents.nodes.exports")
-    nm = ex.assigns.get("_node_map")
-    keys = {unparse(k) for k in nm.keys} if isinstance(nm, ast.Dict) else set()
-    need = {"ast.List", "ast.Tuple", "ast.Set", "ast.BinOp", "ast.Name", "ast.Attribute", "ast.Starred", "ast.Constant"}
-    for k in sorted(need):
-        ctx.ob("R4", f"extract|{k}", k in keys, f"__all__ extraction handles {k}", f"{ex.relpath}:{getattr(nm, 'lineno', 0)}")
-    binop = prog.function("_griffe.agents.nodes.exports._extract_binop")
-    rets = [r for r in walk_no_nested(binop.node) if isinstance(r, ast.Return)]
-    ok = len(rets) == 1 and isinstance(rets[0].value, ast.BinOp) and isinstance(rets[0].value.op, ast.Add) and unparse(rets[0].value.left) == "left" and unparse(rets[0].value.right) == "right"
-    ctx.ob("R4", key(binop, "order"), ok, "a + b keeps left-to-right order", where(binop))
-    va = prog.function("_griffe.agents.visitor.Visitor.visit_augassign")
-    conj = None
-    for s in walk_no_nested(va.node):
-        if isinstance(s, ast.Assign) and isinstance(s.value, ast.BoolOp) and isinstance(s.value.op, ast.And):
-            conj = s
-    texts = [unparse(v) for v in conj.value.values] if conj is not None else []
-    ok = any("'__all__'" in t and "==" in t for t in texts) and any("is_module" in t for t in texts) and any("isinstance(node.op, ast.Add)" in t for t in texts) and len(texts) == 3
-    ctx.ob("R4", key(va, "augassign-condition"), ok, f"`__all__ +=` handling requires target==__all__, a module, and + (conjuncts: {texts})", where(va))
-    ext = [c for c in calls_in(va.node) if isinstance(c.func, ast.Attribute) and c.func.attr == "extend" and unparse(c.func.value).endswith(".exports")]
-    ctx.ob("R4", key(va, "augassign-extends"), len(ext) == 1, "`__all__ += ...` extends (does not replace) the exports", where(va))
-    ha = prog.function("_griffe.agents.visitor.Visitor.handle_attribute")
-    sets = [s for s in walk_no_nested(ha.node) if isinstance(s, ast.Assign) and isinstance(s.targets[0], ast.Attribute) and s.targets[0].attr == "exports"]
-    ok = len(sets) == 1
-    if ok:
-        cfg = cfg_of(ha)
-        for x in [n for n in cfg.live_nodes() if n.stmt is sets[0]]:
-            ok = ok and cfg.dominated_by_fact(x, lambda a, t: t and unparse(a) in ("name == '__all__'",))
-    ctx.ob("R4", key(ha, "assign-sets-exports"), ok, "an assignment to the name __all__ (and only that) sets the module's exports", where(ha))
+    from sa.tables.extraction import Extraction
+
+    exn = Extraction(prog)
+    gm = prog.function("_griffe.agents.visitor.Visitor.get_module")
+
+    def shown(x: object) -> str:
+        if isinstance(x, str):
+            return x
+        try:
+            return "<" + exn.it.getattr(x, "canonical_path") + ">"  # a reference to another module's __all__, by the path it resolves to
+        except Raised:
+            return "<" + exn.it._str(x) + ">"
+
+    cases = {  # source -> the list Python builds, references to other modules' __all__ kept symbolic
+        '__all__ = ["a", "b"]': ["a", "b"],
+        '__all__ = ("a", "b")': ["a", "b"],
+        '__all__ = {"a"}': ["a"],
+        '__all__ = ["a"] + ["b"] + ["c"]': ["a", "b", "c"],
+        'from o import __all__ as o_all\n__all__ = [*o_all, "c"]': ["<o.__all__>", "c"],
+        'from o import __all__ as o_all\n__all__ = ["a", *o_all]': ["a", "<o.__all__>"],
+        'import o\n__all__ = o.__all__ + ["d"]': ["<o.__all__>", "d"],
+        'import o\n__all__ = ["d"] + o.__all__': ["d", "<o.__all__>"],
+        '__all__ = ["a"]\n__all__ += ["e", "f"]': ["a", "e", "f"],
+        'import o\n__all__ = ["a"]\n__all__ += o.__all__': ["a", "<o.__all__>"],
+        '__all__ = ["a"]\n__all__ += ["e"]\n__all__ += ["g"]': ["a", "e", "g"],
+        '__all__ = ["a"]\nother = ["z"]\nother += ["y"]': ["a"],
+        '__all__ = ["a"]\nclass K:\n    pass\nK.__all__ = ["q"]': ["a"],
+        '__all__ = ["a"]\n__all__ = ["b"]': ["b"],
+        '__all__: list[str] = ["a"]': ["a"],
+        'x = 1': None,
+        '__all__ = []': [],
+    }
+    for src, want in cases.items():
+        mod = exn.module(src + "\n")
+        if isinstance(mod, str):
+            got: object = mod
+        else:
+            ex_ = mod.attrs.get("exports")
+            got = None if ex_ is None else [shown(x) for x in ex_]
+        ctx.ob("R4", f"exports|{src}", got == want, f"`{src}` gives exports {got}; Python builds {want}", where(gm))
 
     # ------------------------------------------------------------------ R5
     ctx.rule("R5", "expand_exports: strings are kept, a referenced module's exports are spliced in place after that module was expanded itself; "
